@@ -30,7 +30,7 @@ impl Check for C07 {
         "model_checking"
     }
     fn n_items(&self, tier: Tier) -> u64 {
-        (scen(tier).len() + srv_scen(tier).len() + crate::props::backlog::sizes(tier).len()) as u64
+        (scen(tier).len() + srv_scen(tier).len() + crate::props::backlog::sizes(tier).len() + crate::props::twoservers::cases(tier).len()) as u64
     }
     fn chunk(&self, _tier: Tier) -> u64 {
         4
@@ -42,20 +42,23 @@ impl Check for C07 {
         } else if idx < nq + srv_scen(tier).len() as u64 {
             let (sc, bound) = &srv_scen(tier)[(idx - nq) as usize];
             srvq::run_item("C07", sc, *bound, tier, acc);
-        } else {
+        } else if idx < nq + srv_scen(tier).len() as u64 + crate::props::backlog::sizes(tier).len() as u64 {
             crate::props::backlog::run_item((idx - nq - srv_scen(tier).len() as u64) as usize, tier, acc);
+        } else {
+            crate::props::twoservers::run_item((idx - nq - srv_scen(tier).len() as u64 - crate::props::backlog::sizes(tier).len() as u64) as usize, tier, acc);
         }
     }
     fn rule(&self, tier: Tier) -> String {
         format!(
-            "{} || server seam: real Server, application threads with programs over {{recv, recv_timeout(T), try_recv, incoming_requests().next() on a fresh iterator, next() on one iterator kept across calls}} (every single program and pair{}), connections {} with pipelined requests, {} unblock calls, receivers blocked first or racing; {} scenarios, strict bound {}; same oracles read through Server::verif_queue_snapshot (hook H5) || {}",
+            "{} || server seam: real Server, application threads with programs over {{recv, recv_timeout(T), try_recv, incoming_requests().next() on a fresh iterator, next() on one iterator kept across calls}} (every single program and pair{}), connections {} with pipelined requests, {} unblock calls, receivers blocked first or racing; {} scenarios, strict bound {}; same oracles read through Server::verif_queue_snapshot (hook H5) || {} || {}",
             rule_text("C07", tier, scen(tier).len()),
             if tier == Tier::Thorough { " and one triple" } else { "" },
             if "C07" == "C07" { "[1] [2] [1,1] [2,1]" } else { "[] [1] [1,1]" },
             if "C07" == "C07" { "0..1" } else { "1..2" },
             srv_scen(tier).len(),
             if tier == Tier::Thorough { "2 (<= 2 receivers+connections) / 1" } else { "1 / 0" },
-            crate::props::backlog::RULE
+            crate::props::backlog::RULE,
+            crate::props::twoservers::RULE
         )
     }
     fn assumptions(&self) -> Vec<String> {
@@ -65,7 +68,9 @@ impl Check for C07 {
         ]
     }
     fn replay(&self, replay: &Value, acc: &mut Acc) {
-        if crate::props::backlog::is_backlog_replay(replay) {
+        if crate::props::twoservers::is_replay(replay) {
+            crate::props::twoservers::replay(replay, acc);
+        } else if crate::props::backlog::is_backlog_replay(replay) {
             crate::props::backlog::replay(replay, acc);
         } else if replay["scenario"]["seam"].as_str() == Some("Server") {
             srvq::replay("C07", replay, acc);
